@@ -772,3 +772,25 @@ def command_datatype_is_rebuilt_from_the_own_argument_and_result(ctx):
     ctx.check(ok, f'{f.qualname}:datatype rebuilt on every path', f.node, 'self.datatype = CommandType(self.argument, self.result) unconditionally',
               'finish() can leave self.datatype as it was: after clone() the CommandType still refers to the argument / result objects of the class, so a run-time '
               'change through one instance changes the class, the other instances and every instance created later', f)
+
+
+@rule('C09.R2i', min_instances=1)
+def the_class_creation_registry_is_emptied_before_anything_can_fail(ctx):
+    """rwhandler.Handler.method_names is a registry shared by ALL handler objects; it is tolerated as transient because
+    __set_name__ removes the entry of its function.  The removal has to come before every `raise` of __set_name__: when the
+    refusal of a superfluous method is raised first, the entry stays behind for the life of the process and the next class
+    (a corrected re-definition, another module with the same qualified name) is refused as 'duplicate method'"""
+    m = ctx.m
+    f = m.method('frappy.rwhandler.Handler', '__set_name__', inherited=False)
+    ctx.analysed(f)
+    cfg = CFG(f.node, m, f.module)
+    rem = [c for c in calls_in(f.node) if call_attr(c) in ('discard', 'remove', 'pop') and 'method_names' in src(c.func)]
+    if not rem:
+        raise AnchorMissing('removal from method_names not found in Handler.__set_name__', violation=f'{f.qualname}:registry entry removed before a refusal')
+    rids = [i for c in rem for i in cfg.node_of(c)]
+    raises = [r for r in body_walk(f.node) if isinstance(r, ast.Raise)]
+    late = [r for r in raises if not all(cfg.dominates(rids, i) for i in cfg.ids(r))]
+    ctx.check(not late, f'{f.qualname}:registry entry removed before a refusal', late[0] if late else rem[0],
+              f'`{src(rem[0])}` precedes every raise of __set_name__ ({len(raises)})',
+              f'`{src(late[0])[:80] if late else ""}` can be raised before `{src(rem[0])}` ran: the entry of this function stays in the registry shared by all '
+              'handlers, and a later class defining a method of the same qualified name is refused as duplicate', f)
